@@ -81,6 +81,72 @@ theorem spellings_agree (h scheme path : Bytes) (p : Nat) (hp : p < 65536)
     simp only [parseUri, hne', Bool.false_eq_true, if_false, e1, want]
     simp [Except.map, Dissect.toGai, cstr_of_digits hd]
 
+/-- no scheme is recognised in `h/rest` when `h` has no colon (whatever `rest` contains - "://" included) -/
+theorem trimServAndPath_hostpath {h rest : Bytes} (hc : (0x3a : UInt8) ∉ h) :
+    trimServAndPath (h ++ 0x2f :: rest) = (trimPath (h ++ 0x2f :: rest)).map (·, []) := by
+  unfold trimServAndPath
+  have htw : (h ++ 0x2f :: rest).takeWhile isWord = h.takeWhile isWord :=
+    takeWhile_append_stop (by decide) h
+  have hdrop : (h ++ 0x2f :: rest).drop (h.takeWhile isWord).length = h.dropWhile isWord ++ 0x2f :: rest := by
+    conv => lhs; arg 2; rw [← List.takeWhile_append_dropWhile (p := isWord) (l := h)]
+    rw [List.append_assoc, List.drop_left]
+  simp only [htw, hdrop]
+  have hno : ((h.dropWhile isWord ++ 0x2f :: rest).take 3 == [0x3a, 0x2f, 0x2f]) = false := by
+    cases hd : h.dropWhile isWord with
+    | nil => simp
+    | cons x xs =>
+      have hx : x ∈ h := mem_of_mem_dropWhile (p := isWord) (by rw [hd]; exact List.mem_cons_self ..)
+      have : x ≠ 0x3a := by intro e; subst e; exact hc hx
+      simp [this]
+  simp [hno]
+
+/-- the documented spelling WITHOUT a service, "host/path": for every host text `h` without ':' and '/'
+(non-empty) and EVERY single-line path - free text that may itself contain colons, ports, brackets and
+"://" anywhere, so that the first colon of the whole string sits inside the path - the URI is dissected to
+the same `(h, no service)` as the bare host, and that is what reaches `getaddrinfo` -/
+theorem hostpath_spelling (h path : Bytes) (hne : h ≠ []) (hc : (0x3a : UInt8) ∉ h) (hs : (0x2f : UInt8) ∉ h)
+    (hpath : hasLineBreak path = false) :
+    dissect (h ++ 0x2f :: path) = .ok ⟨h, [], false⟩ ∧ dissect h = .ok ⟨h, [], false⟩ := by
+  have hsplit : splitPort h = none := by
+    unfold splitPort
+    rw [splitLast_none hc]
+  have hnum : isServiceNumeric [] = false := by decide
+  have hguard : guardRange ⟨h, [], false⟩ = .ok ⟨h, [], false⟩ := by
+    simp [guardRange, hnum]
+  constructor
+  · have htp : trimPath (h ++ 0x2f :: path) = some h :=
+      trimPath_eval hs hne (Or.inr ⟨path, rfl, hpath⟩)
+    have ht : trimServAndPath (h ++ 0x2f :: path) = some (h, []) := by
+      rw [trimServAndPath_hostpath hc, htp]; rfl
+    simp only [dissect, dissectRaw, ht, hsplit, hguard]
+  · have htp : trimPath h = some h := by
+      have := trimPath_eval (a := h) (tail := []) hs hne (Or.inl rfl)
+      rwa [List.append_nil] at this
+    have ht : trimServAndPath h = some (h, []) := by
+      have hh : trimServAndPath h = (trimPath h).map (·, []) := by
+        unfold trimServAndPath
+        have hno : (((h.drop (h.takeWhile isWord).length)).take 3 == [0x3a, 0x2f, 0x2f]) = false := by
+          have hd : h.drop (h.takeWhile isWord).length = h.dropWhile isWord := by
+            conv => lhs; arg 2; rw [← List.takeWhile_append_dropWhile (p := isWord) (l := h)]
+            rw [List.drop_left]
+          rw [hd]
+          cases hdw : h.dropWhile isWord with
+          | nil => simp
+          | cons x xs =>
+            have hx : x ∈ h := mem_of_mem_dropWhile (p := isWord) (by rw [hdw]; exact List.mem_cons_self ..)
+            have : x ≠ 0x3a := by intro e; subst e; exact hc hx
+            simp [this]
+        simp [hno]
+      rw [hh, htp]; rfl
+    simp only [dissect, dissectRaw, ht, hsplit, hguard]
+
+/-- non-vacuity / the input class of the seeded change C12_2_agentG: the first colon of the string is the
+one of "://" inside the query -/
+example : dissect ([0x31, 0x2e, 0x32] ++ 0x2f :: [0x75, 0x3d, 0x68, 0x3a, 0x2f, 0x2f, 0x78, 0x3a, 0x38, 0x30])  -- "1.2/u=h://x:80"
+    = .ok ⟨[0x31, 0x2e, 0x32], [], false⟩ :=
+  (hostpath_spelling [0x31, 0x2e, 0x32] [0x75, 0x3d, 0x68, 0x3a, 0x2f, 0x2f, 0x78, 0x3a, 0x38, 0x30]
+    (by decide) (by decide) (by decide) (by decide)).1
+
 /-- the bracketed spellings for IPv6 literals (colons, `%scope` allowed inside the brackets):
 `[h6]:p`, `scheme://[h6]:p`, `[h6]:p/path`, `scheme://[h6]:p/path?query` and the pair agree -/
 theorem spellings_agree_v6 (h6 scheme path : Bytes) (p : Nat) (hp : p < 65536)
